@@ -109,6 +109,9 @@ def sensitivity(only, short: bool) -> bool:
                          "tier": mj.get("tier", "quick"), "runs": mj.get("runs")})
         cid = meta["property"]
         harmless = (meta["expect"] == "NONE")
+        documented_miss = None
+        if p.endswith("patch.diff"):
+            documented_miss = mj.get("documented_miss")     # a seeded change the checks do not catch, and why
         d = _scratch_copy()
         t0 = time.monotonic()
         try:
@@ -140,6 +143,10 @@ def sensitivity(only, short: bool) -> bool:
                 rc3, _ = _run([CHECK, cid, "--replay", vio[0][1]])
                 replay_ok = replay_ok and rc3 == 0
                 good = good and replay_ok
+            if documented_miss and not good and rc == 0:
+                print(f"  mutant {p[len(VERIF) + 1:]} [{cid}]: rc=0 -> missed (documented: {documented_miss}) "
+                      f"({time.monotonic()-t0:.0f}s)")
+                continue
             print(f"  mutant {p[len(VERIF) + 1:]} [{cid}]: rc={rc} classes={classes} expected={meta['expect']} "
                   f"replay_reproduces={replay_ok} -> {'caught' if good else 'MISSED'} ({time.monotonic()-t0:.0f}s)")
             if not good:
